@@ -4,7 +4,7 @@ Top-level spec (property text): a directory target lints exactly the regular fil
 always-excluded directory (.git, node_modules, __pycache__, .venv, venv, build, dist, caches, *.egg-info), compiled
 artefacts, and files matching a repository ignore pattern; an excluded or ignored file never contributes a violation
 even when named explicitly."""
-from pyvc.api import contract, lemma, custom, Int, Bool, Str, Dict, SeqOf, Rec, Opt, TupleOf, implies, call, ih, opaque, reveal
+from pyvc.api import contract, lemma, custom, Int, Bool, Str, Dict, SeqOf, Rec, Opt, TupleOf, implies, call, ih, opaque, reveal, dict_put
 from contracts._common import PathT, path_str, path_name
 from contracts.c09_paths import (path_parts, name_suffix, mkpath, path_of_str, path_div, fs_is_file, fs_is_dir,
                                  comp_ok, rel_ok, prefix_ok, name_link)
@@ -93,3 +93,128 @@ def excluded_iff_listed(rel):
     p = mkpath(rel)
     r = call(O + "_is_hardcoded_excluded", p)
     return any_excluded_def(rel) and r == (name_suffix(path_name(p)) in COMPILED_SUFFIXES or any(code_excluded_dir(c) for c in rel))
+
+
+# =================================================================== repository ignore patterns (pattern_utils.py, ignore.py)
+from pyvc.api import uf, Any  # noqa: E402
+from pyvc.ex_call import EXTERNALS  # noqa: E402
+from pyvc.ty import Unsupported  # noqa: E402
+
+PU = "src/linter_config/pattern_utils.py::"
+IG = "src/linter_config/ignore.py::"
+
+
+def _native_fnmatch(path, pattern):
+    import fnmatch
+    return fnmatch.fnmatch(path, pattern)
+
+
+# same uninterpreted symbols as contracts/c04_ignore.py (uf.fnmatch, uf.path_relative_to): the glob engine is trusted
+fn_match = uf("fnmatch", [Str, Str], Bool, concrete=_native_fnmatch)
+path_rel = uf("path_relative_to", [PathT, PathT], PathT, concrete=lambda p, r: p.relative_to(r))
+
+
+def _x_fnmatch(ex, args, kwargs, lineno):
+    if len(args) != 2 or kwargs:
+        raise Unsupported("fnmatch.fnmatch with other than two arguments")
+    return ex.call_uf("fnmatch", list(args))
+
+
+EXTERNALS.setdefault("fnmatch.fnmatch", _x_fnmatch)
+
+
+def norm_str(s):
+    """str(Path(s)): pathlib's normalised spelling of s."""
+    return path_str(path_of_str(s))
+
+
+def dir_match(path, pattern):
+    """`pattern` ends with '/': some component of path equals the directory name, or path matches `name*`."""
+    return pattern.rstrip("/") in path_parts(path_of_str(path)) or fn_match(path, pattern.rstrip("/") + "*")
+
+
+def matches_spec(path, pattern):
+    if pattern.endswith("/"):
+        return dir_match(path, pattern)
+    return fn_match(path, pattern) or fn_match(norm_str(path), pattern)
+
+
+@contract(PU + "_matches_directory_pattern", props=["C14", "C04"], types=dict(path=Str, pattern=Str), returns=Bool)
+class MatchesDirectoryPattern:
+    def value(path, pattern):
+        return dir_match(path, pattern)
+
+    def ensures_component_named_like_the_directory_matches(path, pattern, result):
+        # property text / docs: `build/` ignores everything inside a directory called build, at any depth
+        return implies(pattern.rstrip("/") in path_parts(path_of_str(path)), result)
+
+
+@contract(PU + "matches_pattern", props=["C14", "C04"], types=dict(path=Str, pattern=Str), returns=Bool)
+class MatchesPattern:
+    def value(path, pattern):
+        return matches_spec(path, pattern)
+
+
+@contract(PU + "extract_patterns_from_content", props=["C14", "C04"], types=dict(content=Str, lines=SeqOf(Str)),
+          returns=SeqOf(Str))
+class ExtractPatternsFromContent:
+    def value(content):
+        return [line for line in [ln.strip() for ln in content.splitlines()] if line and not line.startswith("#")]
+    # The value clause IS the property's filter (kept = stripped lines that are non-empty and do not start with '#').
+    # The derived form all(len(p) > 0 and not p.startswith("#") for p in result) needs one unfolding of the
+    # generated map/filter function per induction step, which neither solver performs reliably: not claimed.
+
+
+ParserT = Rec("IgnoreDirectiveParser", cls=IG + "IgnoreDirectiveParser", project_root=PathT, repo_patterns=SeqOf(Str),
+              _ignore_cache=Dict)
+
+
+def is_prefix(a, b):
+    return len(a) <= len(b) and b[:len(a)] == a
+
+
+def below_root(p, root):
+    """Component-wise: root's components are a prefix of p's (exactly when p.relative_to(root) succeeds)."""
+    return is_prefix(path_parts(root), path_parts(p))
+
+
+def ign_fresh(root, pats, p):
+    """Property text: the file matches a repository ignore pattern. The string the patterns are matched against is
+    the path relative to the project root when the file is below it, otherwise the path as spelled (the code's
+    fallback; see C09 finding C09-ignore-relative-spelling)."""
+    if below_root(p, root):
+        return any(matches_spec(path_str(path_rel(p, root)), q) for q in pats)
+    return any(matches_spec(path_str(p), q) for q in pats)
+
+
+def cache_entry_ok(cache, p):
+    """Type invariant of the memo cache: entries are bools."""
+    return implies(path_str(p) in cache, isinstance(cache[path_str(p)], bool))
+
+
+def cache_coherent(cache, root, pats, p):
+    return implies(path_str(p) in cache, cache[path_str(p)] == ign_fresh(root, pats, p))
+
+
+def ign_now(cache, root, pats, p):
+    """What is_ignored returns in the current state: the memoised verdict if there is one."""
+    return (cache[path_str(p)] == True) if path_str(p) in cache else ign_fresh(root, pats, p)  # noqa: E712
+
+
+@contract(IG + "IgnoreDirectiveParser.is_ignored", props=["C14", "C09", "C08", "C04"],
+          types=dict(self=ParserT, file_path=PathT, path_str=Str, check_path=Str, result=Bool), returns=Bool,
+          modifies=["self._ignore_cache"])
+class IsIgnored:
+    def requires(self, file_path):
+        return cache_entry_ok(self._ignore_cache, file_path)
+
+    def ensures_memoised_or_computed(self, file_path, result, old):
+        return result == ign_now(old.self._ignore_cache, self.project_root, self.repo_patterns, file_path)
+
+    def ensures_matches_some_pattern(self, file_path, result, old):
+        # property text: ignored <=> matches a repository pattern (given a coherent memo entry for this file)
+        return implies(cache_coherent(old.self._ignore_cache, self.project_root, self.repo_patterns, file_path),
+                       result == ign_fresh(self.project_root, self.repo_patterns, file_path))
+
+    def ensures_cache_updated(self, file_path, result, old):
+        return self._ignore_cache == dict_put(old.self._ignore_cache, path_str(file_path), result)
